@@ -269,9 +269,10 @@ Definition parse_record (o : opts) (s : stream) (fnd : list finding) : uresult :
               | Ok (rt, hs1) fnd4 =>
                   let len := cl_value hs1 in
                   let avail := sdata s2 in
-                  let content := if (len <? 0)%Z then avail else firstn (Z.to_nat len) avail in
+                  let content := if (len <? 0)%Z || (Z.of_nat (length avail) <=? len)%Z
+                                 then avail else firstn (Z.to_nat len) avail in
                   let s3 := mkst (skipn (length content) avail) (stail s2) in
-                  let short := (len <? 0)%Z || (length avail <? Z.to_nat len)%nat in
+                  let short := (len <? 0)%Z || (Z.of_nat (length avail) <? len)%Z in
                   match stail s2, short with
                   | TErr, true => URec (mkrec vt vid rt hs1 (mkblk BGeneric [] [])) (Some (KRead, [])) fnd4 s3
                   | _, _ =>
